@@ -89,7 +89,7 @@ def work(inp):
             profs = [obj._profile] + [p for (o, p, t) in E._LOG if o is obj]
             for st, p in zip(obj.election_states, profs):
                 rounds.append({"elected": groups(st.elected, inv), "remaining": groups(st.remaining, inv), "scores": scores_json(st.scores, inv),
-                               "tiebreaks": _tiebreaks_json(st.tiebreaks, inv),
+                               "tiebreaks": _tiebreaks_json(st.tiebreaks, inv), "rn": int(st.round_number),
                                "bag": sbag_json(p, inv)})
         return json.dumps({"error": err, "rounds": rounds})
 
